@@ -560,6 +560,13 @@ def gen_cases(seed, tier, shard, nshards):
         add('ctr', 'S %d %d %s %d %s %s %d' % (rnd.randrange(16), rnd.randrange(16), key.hex(),
                                                rand_nonce(rnd), core.hx(data), pstr(p), 0), '',
             sig('SX', 'cross-65536', len(key), n))
+    # thorough tier: one single call of 2^32 + d bytes (>= 2^28 blocks inside
+    # one accelerated call), then short calls on the same stream
+    if shard == 1 and tier != 'quick':
+        key = rbytes(rnd, 32)
+        extra = 16 * rnd.randrange(1, 40) + rnd.randrange(16)
+        add('ctr', 'G 0 %s %d %d' % (key.hex(), rand_nonce(rnd), extra), '',
+            sig('G', 'one-call-4GiB', extra))
     # far-offset streams (verification hook crypto_aesctr_verif_seek): the
     # stream is moved to block 2^e - d, e in FAR_EXPS, d in FAR_DS, and the
     # calls then cross block 2^e as one bulk call / sub-block calls / bulk
